@@ -67,29 +67,47 @@ def load_findings():
         return []
 
 
-SAN_RE = re.compile(rb'(?:ERROR: AddressSanitizer: ([\w-]+)|runtime error: ([^\n]{0,80})|AddressSanitizer:DEADLYSIGNAL)')
-FRAME_RE = re.compile(rb'#\d+ 0x[0-9a-f]+ in (\S+) (/repo/[^\s:]+)')
+SAN_RE = re.compile(rb'(?:ERROR: AddressSanitizer: ([\w-]+)|(/repo/[^\s:]+):(\d+):\d+: runtime error: ([^\n]{0,80})|AddressSanitizer:DEADLYSIGNAL)')
+FRAME_RE = re.compile(rb'#\d+ 0x[0-9a-f]+ in ([^\n]+?) (/repo/[^\s:]+):\d+')
+
+
+def _fn(sig):
+    """function name without its parameter list / template noise"""
+    s = sig.decode('latin1')
+    s = re.sub(r'\[abi:\w+\]', '', s)
+    depth = 0
+    out = []
+    for ch in s:
+        if ch in '(<':
+            depth += 1
+        elif ch in ')>':
+            depth -= 1
+        elif depth == 0:
+            out.append(ch)
+    return ''.join(out).strip().split(' ')[-1]
 
 
 def sanitizer_key(text):
-    """(class, first frame in /repo) of the first sanitizer report in text, or None."""
+    """(class, site) of the first sanitizer report in text, or None.  site = innermost function in /repo."""
     m = SAN_RE.search(text)
     if not m:
         return None
     if m.group(1):
         cls = m.group(1).decode()
-        if cls == 'SEGV' or cls == 'DEADLYSIGNAL':
-            cls = 'SEGV'
-    elif m.group(2):
-        cls = 'UB:' + re.sub(rb'0x[0-9a-f]+|\d+', b'N', m.group(2)).decode('latin1').strip()
+    elif m.group(4):
+        cls = 'UB:' + re.sub(r"0x[0-9a-f]+|\d+", 'N', m.group(4).decode('latin1')).strip()
+        cls = re.sub(r"'[^']*'", "T", cls)[:60]
     else:
         cls = 'SEGV'
+    if cls == 'stack-overflow':
+        # the innermost /repo frame of a runaway recursion is the recursing function
+        pass
     fm = FRAME_RE.search(text, m.end())
     fn = 'unknown'
     if fm:
-        fn = fm.group(1).decode('latin1')
-        fn = re.sub(r'\(.*', '', fn)
-        fn += '@' + os.path.basename(fm.group(2).decode('latin1'))
+        fn = _fn(fm.group(1)) + '@' + os.path.basename(fm.group(2).decode('latin1'))
+    elif m.group(2):
+        fn = os.path.basename(m.group(2).decode('latin1')) + ':' + m.group(3).decode()
     return cls, fn
 
 
